@@ -327,3 +327,15 @@ package keeper
 //@   invariant #1 pos:    0 <= it_idx && it_idx <= it_n && len(coins) == it_idx
 //@   invariant #1 listed: forall j:Int :: 0 <= j && j < it_idx ==> coins[j] == get(burned, it_seq[j])
 //@ end
+
+// EVM hook (C10): SwapToNative logs of bound ERC20 contracts are turned into native coins. Log decoding (ABI) is outside
+// the model: event ids, names and unpacked arguments are unconstrained values. What is stated: the hook only succeeds
+// after it has looked at every log of the receipt - it never stops early with success, leaving later swap logs
+// (whose ERC20 amount is already burned) without their native coins.
+//@ func erc20Hook.PostTxProcessing
+//@   property C10
+//@   returns err
+//@   modifies bal, supply
+//@   invariant #1 idx: rangeindex >= 0 - 1 && rangeindex < len(receipt.Logs)
+//@   ensures all_logs_seen: err == nil ==> rangeindex + 1 >= len(receipt.Logs)
+//@ end
